@@ -944,8 +944,11 @@ def check_write_string(run):
                 total = check_copy([e_ for e_ in allv if e_[0] != "return"], asm2, why, S0)
                 if total != R0:
                     why.append("leaving the loop copies %r bytes in all, %r are left" % (total, R0))
+                retv = [e_[1] for e_ in allv if e_[0] == "return" and e_[1] is not None]
                 for key in counters:
                     if env2.get(key, Lin.sym(key)) != Lin.sym(key) + total:
+                        if retv and retv[-1] == Lin.sym(key) + total:
+                            continue            # `return counter + <what the tail copied>;` reports the same number
                         why.append("counter %s grows by %r on the way out, %r bytes are copied" % (
                             key.split("#")[0][2:], env2.get(key, Lin.sym(key)) - Lin.sym(key), total))
         if n_exit == 0:
@@ -1060,6 +1063,14 @@ def check_primitive_returns(run, rule):
             elif isinstance(e, dict) and e.get("k") == "Bin" and e.get("op") == "+":
                 lp, rp = path(e["lhs"]), path(e["rhs"])
                 ok = bool(wss) and any(path(u["args"][0]) == lp for u in ubs) and rp is not None and path(wss[0]["args"][1]) == rp
+                if not ok:
+                    # head count + what write_string() itself reports (that it reports exactly the bytes it copied is R06.5's
+                    # counter obligation on write_string)
+                    for a_, b_ in ((e["lhs"], e["rhs"]), (e["rhs"], e["lhs"])):
+                        bu_ = ir.unwrap_all_casts(b_)
+                        if isinstance(bu_, dict) and bu_.get("k") == "MCall" and callee_qn(bu_) == "CDNS::CdnsEncoder::write_string" and \
+                                any(path(u["args"][0]) == path(a_) for u in ubs):
+                            ok = True
                 run.ob(rule, key, ok, f, r["l"], "returns head bytes + payload size handed to write_string" if ok else
                        "returns %s; expected <head count> + <size passed to write_string>" % show(e))
             elif isinstance(e, dict) and e.get("k") == "Bin" and e.get("op") == "-" and is_member(ir.unwrap_all_casts(e["lhs"]), "m_p") and \
